@@ -23,7 +23,8 @@ def run_lp(case, want_long=True):
     c.oracle = refmodel.Oracle(inst, opts['twopl'], opts['pc'])
     c.criteria = strategies.ordered_criteria(opts)
     c.run = solverio.Run(inst, opts, case.get('mode', 'eb'), case.get('choices', ()),
-                         noise=case.get('noise'), salt=case.get('salt', 0)).solve()
+                         noise=case.get('noise'), salt=case.get('salt', 0),
+                         decoy=case.get('decoy')).solve()
     c.records = c.run.backend.records
     c.short_text = c.run.results('short')
     c.short = solverio.restext.parse_results(c.short_text)
@@ -62,11 +63,31 @@ LARGE = {'quick': dict(n1=8, n2=13, n2min=10, n3=5, lmax=6),
 
 
 @st.composite
+def embedded_instances(draw, **kw):
+    """A tiny instance embedded under sparse two-digit ids (strategies.embed)."""
+    tiny = draw(strategies.instances(strategies.SIZES['tiny'], **kw))
+    m = draw(strategies.id_maps(tiny))
+    return strategies.embed(tiny, m['smap'], m['pmap'], m['lmap'])[0]
+
+
+def draw_decoy(draw, inst, pct_=12):
+    """With probability pct_: an independent option set for a second Solver object on the
+    same file, created between construction and solve of the Solver under test."""
+    if pct(draw) >= pct_:
+        return None
+    solve = draw(st.booleans())
+    return {'opts': draw(strategies.option_sets(inst)), 'solve': solve}
+
+
+@st.composite
 def lp_cases(draw, tier, cbc_pct=8, inst_kw=None, opt_kw=None, sizes=None, large_pct=0):
     if large_pct and pct(draw) < large_pct:
         # two-digit ids, long lists: only oracles that need no enumeration apply (real CBC)
         salt = draw(strategies.salts)
-        inst = draw(strategies.instances(LARGE[tier], **(inst_kw or {})))
+        if pct(draw) < 50:
+            inst = draw(strategies.instances(LARGE[tier], **(inst_kw or {})))
+        else:
+            inst = draw(embedded_instances(**(inst_kw or {})))
         opts = draw(strategies.option_sets(inst, **(opt_kw or {})))
         return {'inst': inst, 'opts': opts, 'choices': [], 'mode': 'cbc', 'salt': salt,
                 'large': True}
@@ -78,11 +99,17 @@ def lp_cases(draw, tier, cbc_pct=8, inst_kw=None, opt_kw=None, sizes=None, large
     inst = draw(strategies.instances(sizes, **(inst_kw or {})))
     opts = draw(strategies.option_sets(inst, **(opt_kw or {})))
     choices = draw(strategies.choice_lists) if mode == 'eb' else []
-    return {'inst': inst, 'opts': opts, 'choices': choices, 'mode': mode, 'salt': salt}
+    case = {'inst': inst, 'opts': opts, 'choices': choices, 'mode': mode, 'salt': salt}
+    decoy = draw_decoy(draw, inst)
+    if decoy:
+        case['decoy'] = decoy
+    return case
 
 
 def base_labels(c, case):
     L = strategies.instance_labels(c.inst, c.opts)
     L.append('mode=' + case.get('mode', 'eb'))
     L.append('status=' + str(c.short['pulp_status']))
+    if case.get('decoy'):
+        L.append('decoy_solver_object' + ('_solved' if case['decoy'].get('solve') else ''))
     return L
